@@ -15,6 +15,10 @@ checks = {
    text="the real client runs under a controlled scheduler (all goroutines, locks, channels and the connection instrumented); for each of 40 transcripts and every byte offset of the server stream the connection is cut with EOF / read error / stall+read-timeout / stall+Close, and a write error is injected at every client write call; within each fault scenario every schedule up to the deviation bound is executed; the scheduler itself decides termination (all threads finished) - no clock",
    note="scripted peer; caller honours the streaming contract; STARTTLS transcripts excluded (crypto/tls is not instrumented); bound 0 quick / 1 thorough with a per-scenario execution cap that is reported",
    technique="stateless model checking of the implementation: exhaustive fault-point enumeration x deviation-bounded schedule exploration under a controlled scheduler"),
+ "C12": dict(level=MC, design="DESIGN.md §4 C12",
+   text="the real client under the controlled scheduler against every server behaviour in a bounded family: pipelines of <=2 (3) pairwise-unambiguous commands from 19 kinds x outcome assignment {OK, OK [code], NO, NO [code], BAD} x every interleaving of all response lines that respects per-command order (RFC 9051 §5.5), in authenticated and selected start states, plus every sequence of <=3 (4) unilateral responses in 4 contexts; after EVERY server line the system runs to scheduler-decided quiescence and State()/Mailbox() are compared with a reference transcript interpreter; per command status+data comparison; final NOOP must succeed",
+   note="default schedule only (schedules are C13's subject); summary not compared while a SELECT is in flight; scripted peer",
+   technique="explicit enumeration of environment behaviours (server answer orders/outcomes) executed on the real client under a controlled scheduler vs reference interpreter"),
  "C13": dict(level=MC, design="DESIGN.md §4 C13",
    text="14 concurrency scenarios (2-3 callers, streaming/literal/IDLE/AUTHENTICATE commands, environment-chosen connection drop, concurrent Close/State/Caps/Mailbox) on the real client under a controlled scheduler with points before every lock, after every unlock and at every channel/select/spawn/connection operation; all schedules within preemption bound 1 (2 thorough) and delay bound 2 (3 thorough); verdict by the scheduler (all threads finish, no panic), wire tags pairwise distinct",
    note="data races themselves are invisible to a cooperative scheduler (their behavioural consequences are explored); execution caps per scenario are reported with the bound completed",
